@@ -237,7 +237,7 @@ theorem reach_inv {cfg : Cfg} (P : Params α) {den : Key → α} (hden : IsDen c
     (∀ k, o = .failed k → P.fails k = true ∧ ∃ rest', BatchInv cfg den rest' s' ∧ k ∈ rest'.map (·.1)) ∧
     LogExt (sys0 st0).log s'.log := by
   rcases mainLoop_spec P hden hnw hcs rank hrank choices (sys0 st0) hs.sysInv with
-    hbad | ⟨s1, o1, hok, hdone, hstarved, hfailed, _, hdeps, hfok, hlog⟩
+    ⟨hbad, _⟩ | ⟨s1, o1, hok, hdone, hstarved, hfailed, _, hdeps, hfok, hlog⟩
   · rw [hbad] at hrun; cases hrun
   · rw [hok] at hrun
     cases hrun
